@@ -46,6 +46,12 @@ import (
 	ipld "github.com/ipfs/go-ipld-format"
 	"github.com/ipfs/go-unixfsnode"
 	dagpb "github.com/ipld/go-codec-dagpb"
+	"github.com/ipld/go-ipld-prime/codec/dagcbor"
+	"github.com/ipld/go-ipld-prime/datamodel"
+	"github.com/ipld/go-ipld-prime/fluent/qp"
+	cidlink "github.com/ipld/go-ipld-prime/linking/cid"
+	basicnode "github.com/ipld/go-ipld-prime/node/basic"
+	mh "github.com/multiformats/go-multihash"
 	"github.com/spaolacci/murmur3"
 
 	"verifharness/vh"
@@ -328,6 +334,220 @@ func (w *world) build(s *spec) (ipld.Node, *lnode, error) {
 	return nd, ln, nil
 }
 
+// ---------------------------------------------------------------- non-UnixFS (dag-cbor) trees: the non-link terminal branch
+//
+// value ::= I <int> | M <n> (<namehex> value)^n | K value        (K = link to a NEW block holding value)
+
+type cval struct {
+	kind  byte
+	n     int
+	names []string
+	kids  []*cval
+	// filled by build
+	blk cid.Cid // K: cid of the target block
+}
+
+func (v *cval) tokens(out *[]string) {
+	switch v.kind {
+	case 'I':
+		*out = append(*out, "I", strconv.Itoa(v.n))
+	case 'K':
+		*out = append(*out, "K")
+		v.kids[0].tokens(out)
+	default:
+		*out = append(*out, "M", strconv.Itoa(len(v.kids)))
+		for i, k := range v.kids {
+			*out = append(*out, vh.Hex([]byte(v.names[i])))
+			k.tokens(out)
+		}
+	}
+}
+
+func parseCval(ts []string) (*cval, []string) {
+	switch ts[0] {
+	case "I":
+		return &cval{kind: 'I', n: vh.Atoi(ts[1])}, ts[2:]
+	case "K":
+		k, r := parseCval(ts[1:])
+		return &cval{kind: 'K', kids: []*cval{k}}, r
+	}
+	v := &cval{kind: 'M'}
+	n := vh.Atoi(ts[1])
+	ts = ts[2:]
+	for i := 0; i < n; i++ {
+		v.names = append(v.names, string(vh.UnHex(ts[0])))
+		var k *cval
+		k, ts = parseCval(ts[1:])
+		v.kids = append(v.kids, k)
+	}
+	return v, ts
+}
+
+// storeBlock encodes the value as one dag-cbor block (nested K values become blocks of their own first)
+func (w *world) storeBlock(v *cval) (cid.Cid, error) {
+	nd, err := w.cnode(v)
+	if err != nil {
+		return cid.Undef, err
+	}
+	var buf bytes.Buffer
+	if err := dagcbor.Encode(nd, &buf); err != nil {
+		return cid.Undef, err
+	}
+	c, err := cid.Prefix{Version: 1, Codec: cid.DagCBOR, MhType: mh.SHA2_256, MhLength: -1}.Sum(buf.Bytes())
+	if err != nil {
+		return cid.Undef, err
+	}
+	b, err := blocks.NewBlockWithCid(buf.Bytes(), c)
+	if err != nil {
+		return cid.Undef, err
+	}
+	return c, w.bs.Put(w.ctx, b)
+}
+
+func (w *world) cnode(v *cval) (datamodel.Node, error) {
+	switch v.kind {
+	case 'I':
+		return basicnode.NewInt(int64(v.n)), nil
+	case 'K':
+		c, err := w.storeBlock(v.kids[0])
+		if err != nil {
+			return nil, err
+		}
+		v.blk = c
+		return basicnode.NewLink(cidlink.Link{Cid: c}), nil
+	}
+	var ferr error
+	nd, err := qp.BuildMap(basicnode.Prototype.Map, int64(len(v.kids)), func(ma datamodel.MapAssembler) {
+		for i, k := range v.kids {
+			kn, err := w.cnode(k)
+			if err != nil {
+				ferr = err
+				return
+			}
+			qp.MapEntry(ma, v.names[i], qp.Node(kn))
+		}
+	})
+	if ferr != nil {
+		return nil, ferr
+	}
+	return nd, err
+}
+
+func (v *cval) dump(out *[]string) {
+	switch v.kind {
+	case 'I':
+		*out = append(*out, "I")
+	case 'K':
+		*out = append(*out, "K", v.blk.String())
+		v.kids[0].dump(out)
+	default:
+		*out = append(*out, "M", strconv.Itoa(len(v.kids)))
+		for i, k := range v.kids {
+			*out = append(*out, vh.Hex([]byte(v.names[i])))
+			k.dump(out)
+		}
+	}
+}
+
+// the property's reading of a path over such a tree: the CID of the last block entered and the segments
+// walked inside it; ok=false when a segment does not exist
+func cspec(v *cval, blk cid.Cid, segs []string) (cid.Cid, []string, bool) {
+	var inBlock []string
+	for i, s := range segs {
+		if v.kind != 'M' {
+			return cid.Undef, nil, false
+		}
+		var next *cval
+		for j, nm := range v.names {
+			if nm == s {
+				next = v.kids[j]
+				break
+			}
+		}
+		if next == nil {
+			return cid.Undef, nil, false
+		}
+		if next.kind == 'K' {
+			blk, inBlock, v = next.blk, nil, next.kids[0]
+			if i == len(segs)-1 {
+				return blk, []string{}, true
+			}
+			continue
+		}
+		inBlock = append(inBlock, s)
+		v = next
+	}
+	return blk, inBlock, true
+}
+
+func genCval(r *vh.Rand, depth int) *cval {
+	if depth >= 5 || (depth > 0 && r.Chance(1, 4)) {
+		return &cval{kind: 'I', n: r.Intn(1000)}
+	}
+	if depth > 0 && r.Chance(1, 3) {
+		return &cval{kind: 'K', kids: []*cval{genCval(r, depth+1)}}
+	}
+	v := &cval{kind: 'M'}
+	seen := map[string]bool{}
+	for i, n := 0, r.Range(1, 4); i < n; i++ {
+		nm := vh.Pick(r, []string{"a", "b", "c", "d", "x", "0", "1", "é", "k k"})
+		if seen[nm] {
+			continue
+		}
+		seen[nm] = true
+		v.names = append(v.names, nm)
+		v.kids = append(v.kids, genCval(r, depth+1))
+	}
+	return v
+}
+
+func cpaths(v *cval, prefix []string, out *[][]string) {
+	for v.kind == 'K' { // a link is transparent for paths
+		v = v.kids[0]
+	}
+	*out = append(*out, append([]string(nil), prefix...))
+	if v.kind == 'M' {
+		for i, k := range v.kids {
+			cpaths(k, append(prefix, v.names[i]), out)
+		}
+	}
+}
+
+func genCborCase(cr *vh.Rand, id string) vh.Case {
+	root := genCval(cr, 0)
+	var st []string
+	root.tokens(&st)
+	w := newWorld()
+	rc, err := w.storeBlock(root)
+	if err != nil {
+		panic(err)
+	}
+	dt := []string{rc.String()}
+	root.dump(&dt)
+	c := vh.Case{ID: id}
+	c.Ops = append(c.Ops, "cbuild "+strings.Join(st, " "), "ctree "+strings.Join(dt, " "))
+	var ps [][]string
+	cpaths(root, nil, &ps)
+	for _, p := range ps {
+		c.Ops = append(c.Ops, opLine("crtl", p))
+		if cr.Chance(1, 2) {
+			q := append([]string(nil), p...)
+			switch cr.Intn(3) {
+			case 0:
+				q = append(q, vh.Pick(cr, []string{"a", "zz", "0"}))
+			case 1:
+				q = append(q, "a", "b")
+			default:
+				if len(q) > 0 {
+					q[cr.Intn(len(q))] = "nope"
+				}
+			}
+			c.Ops = append(c.Ops, opLine("crtl", q))
+		}
+	}
+	return c
+}
+
 // ---------------------------------------------------------------- block-level dump (uses merkledag decoding, not unixfsnode)
 
 func hashOf(name string) []byte {
@@ -529,6 +749,10 @@ func opLine(op string, segs []string) string {
 func gen(r *vh.Rand, tier string, n int, emit func(vh.Case)) {
 	for i := 0; i < n; i++ {
 		cr := r.Fork()
+		if cr.Chance(1, 10) {
+			emit(genCborCase(cr, strconv.Itoa(i)))
+			continue
+		}
 		maxDepth := cr.Range(1, 4)
 		if tier == "thorough" {
 			maxDepth = cr.Range(1, 6)
@@ -683,6 +907,7 @@ func exec(c vh.Case, o *vh.Out) {
 	var w *world
 	var root *lnode
 	var rootCid cid.Cid
+	var croot *cval
 	fill := -1
 	for _, line := range c.Ops {
 		f := strings.Fields(line)
@@ -694,6 +919,67 @@ func exec(c vh.Case, o *vh.Out) {
 				o.Kind("remote-fill-" + f[2])
 			}
 			o.Emit("ok")
+		case "cbuild":
+			w = newWorld()
+			croot, _ = parseCval(f[1:])
+			rc, err := w.storeBlock(croot)
+			if err != nil {
+				o.Emit("build-error")
+				o.Fail("build-error", "%v", err)
+				continue
+			}
+			rootCid = rc
+			o.Kind("dag-cbor")
+			o.Emit("ok")
+		case "ctree":
+			dt := []string{rootCid.String()}
+			croot.dump(&dt)
+			if strings.Join(dt, " ") != strings.Join(f[1:], " ") {
+				o.Emit("dump-mismatch")
+				continue
+			}
+			o.Emit("ok")
+		case "crtl":
+			segs := parseSegs(f[1:])
+			p, err := path.NewPathFromSegments(append([]string{"ipld", rootCid.String()}, segs...)...)
+			if err != nil {
+				o.Emit("bad-path")
+				continue
+			}
+			ip, err := path.NewImmutablePath(p)
+			if err != nil {
+				o.Emit("bad-path")
+				continue
+			}
+			rc, rem, err := w.res.ResolveToLastNode(w.ctx, ip)
+			var nl *resolver.ErrNoLink
+			switch {
+			case err == nil:
+				o.Kind(fmt.Sprintf("crtl-ok-rem%d", min(len(rem), 3)))
+				hs := make([]string, len(rem))
+				for i, s := range rem {
+					hs[i] = vh.Hex([]byte(s))
+				}
+				o.Emit("ok %s rem=%s", rc, strings.Join(hs, "/"))
+			case errors.As(err, &nl):
+				o.Kind("crtl-nolink")
+				o.Emit("nolink %s", vh.Hex([]byte(nl.Name)))
+			default:
+				o.Kind("crtl-err")
+				o.Emit("err")
+			}
+			wc, wrem, ok := cspec(croot, rootCid, segs)
+			if ok {
+				if err != nil {
+					o.Fail("ipld-existing-path-error", "path %q: %v", segs, err)
+				} else if !rc.Equals(wc) || strings.Join(rem, "/") != strings.Join(wrem, "/") {
+					o.Fail("ipld-wrong-block-or-remainder", "path %q: got %s %q want %s %q", segs, rc, rem, wc, wrem)
+				} else if len(wrem) > 0 {
+					o.Nontrivial()
+				}
+			} else if err == nil {
+				o.Fail("ipld-missing-path-resolved", "path %q resolved to %s %q", segs, rc, rem)
+			}
 		case "build":
 			w = newWorld()
 			w.fill = fill
